@@ -117,6 +117,12 @@ class GenericContextProvider(RoleProvider):
                     # handle changed ContextAssociation
                     was_associated = old_state_container.ContextAssociation == pm_types.ContextAssociation.ASSOCIATED
                     becomes_associated = proposed_st.ContextAssociation == pm_types.ContextAssociation.ASSOCIATED
+                    if was_associated and proposed_st.ContextAssociation not in (
+                        pm_types.ContextAssociation.ASSOCIATED,
+                        pm_types.ContextAssociation.DISASSOCIATED,
+                    ):
+                        msg = f'state {proposed_st.Handle} is associated, it can only be disassociated'
+                        raise ValueError(msg)
                     if becomes_associated and not was_associated:
                         handles = self._mdib.xtra.disassociate_all(
                             entity,
